@@ -10,6 +10,8 @@ import signal
 import sys
 import time
 import traceback
+
+from . import callform
 import warnings
 
 
@@ -57,6 +59,8 @@ class Ctx:
         from . import load
 
         self.sr = load.load()
+        if os.environ.get("SYMV_CALLFORM", "1") != "0":
+            callform.install()
 
     # -- budgets ------------------------------------------------------------------------
     def n(self, quick, thorough):
@@ -82,6 +86,7 @@ class Ctx:
                 self.notes[f"{stream}_stopped_at"] = idx
                 return
             self.cur = (stream, idx)
+            callform.RNG.seed(f"{self.seed}:{self.pid}:{stream}:{idx}:callform")
             yield idx, random.Random(f"{self.seed}:{self.pid}:{stream}:{idx}")
 
     def want(self, stream, idx):
@@ -89,6 +94,7 @@ class Ctx:
         if self.only is not None and (self.only[0] != stream or self.only[1] != idx):
             return False
         self.cur = (stream, idx)
+        callform.RNG.seed(f"{self.seed}:{self.pid}:{stream}:{idx}:callform")
         return True
 
     def run_case(self, fn, *args):
@@ -258,6 +264,9 @@ def main(argv):
         with open(os.path.join(os.environ["SYMV_LINECOV"], f"{pid}-{os.getpid()}.json"), "w") as f:
             json.dump(sorted(reach.hits), f)
     anchors = reach.per_function(mod.META.get("anchors", []))
+    if callform.STATE["seen"]:
+        ctx.count("callform", "outermost-calls-of-shimmed-functions", callform.STATE["seen"])
+        ctx.count("callform", "issued-in-a-different-positional/keyword-split", callform.STATE["rewritten"])
     rep = {
         "evaluations": ctx.evaluations,
         "nontrivial": sorted(ctx.nontrivial_sigs),
